@@ -47,9 +47,9 @@ def build(rng, tier):
                 scn['sources'][si][m] = 'absent'
     # an earlier source may hold a broken copy: the later, well-formed copy is the one compiled and its
     # IMPORTS are followed all the same
-    if ns > 1 and rng.random() < 0.15:
+    if ns > 1 and rng.random() < 0.2:
         m = rng.choice([x for x in mods if x != scn.get('folded')])
-        scn['sources'][0][m] = rng.choice(['synerr', 'lexerr', 'truncated'])
+        scn['sources'][0][m] = rng.choice(['synerr', 'lexerr', 'truncated', 'empty', 'comments', 'untyped'])
         scn['sources'][rng.randrange(1, ns)][m] = 'ok'
         scn['broken_first_copy'] = m
     # a file named unlike its module, whose module imports the file's own name (and is requested by it)
@@ -64,6 +64,11 @@ def build(rng, tier):
                 scn['requested'].append(alias)
             scn['graph'][m] = scn['graph'][m] + [alias]
             scn['self_alias_import'] = True
+            if rng.random() < 0.5:
+                # the readers report every file under another spelling of the name it was asked by
+                scn['source_alias'] = 'lower'
+    if 'source_alias' not in scn and rng.random() < 0.1:
+        scn['source_alias'] = 'lower'
     # SMIv1 style dependencies: every symbol imported from them is rewritten to an SMIv2 home, the
     # module is named in IMPORTS all the same and belongs to the closure
     if rng.random() < 0.3:
@@ -101,6 +106,8 @@ def run_case(idx, rng, tier, res):
         res.count('smiv1_style_import_scenarios')
     if scn.get('self_alias_import'):
         res.count('alias_file_importing_its_own_name')
+    if scn.get('source_alias'):
+        res.count('sources_reporting_another_spelling')
     if scn.get('broken_first_copy'):
         res.count('broken_copy_in_earlier_source')
     res.cell('graph:' + cls, 'sources:%d' % len(scn['sources']),
